@@ -444,6 +444,10 @@ func builtinCopyFunc(arg Object) Object {
 	return arg
 }
 
+// maxRepeatSize is the largest result length (elements or bytes) repeat builtin
+// function agrees to build.
+const maxRepeatSize = 1<<31 - 1
+
 func builtinRepeatFunc(arg Object, count int) (ret Object, err error) {
 	if count < 0 {
 		return nil, NewArgumentTypeError(
@@ -453,23 +457,38 @@ func builtinRepeatFunc(arg Object, count int) (ret Object, err error) {
 		)
 	}
 
+	var size int
 	switch v := arg.(type) {
 	case Array:
-		out := make(Array, 0, len(v)*count)
-		for i := 0; i < count; i++ {
-			out = append(out, v...)
+		size = len(v)
+	case String:
+		size = len(v)
+	case Bytes:
+		size = len(v)
+	default:
+		return nil, NewArgumentTypeError(
+			"1st",
+			"array|string|bytes",
+			arg.TypeName(),
+		)
+	}
+	if size > 0 && count > maxRepeatSize/size {
+		return nil, ErrType.NewError("repeat count is too large")
+	}
+
+	switch v := arg.(type) {
+	case Array:
+		out := make(Array, 0, size*count)
+		if size > 0 {
+			for i := 0; i < count; i++ {
+				out = append(out, v...)
+			}
 		}
 		ret = out
 	case String:
 		ret = String(strings.Repeat(string(v), count))
 	case Bytes:
 		ret = Bytes(bytes.Repeat(v, count))
-	default:
-		err = NewArgumentTypeError(
-			"1st",
-			"array|string|bytes",
-			arg.TypeName(),
-		)
 	}
 	return
 }
@@ -779,6 +798,9 @@ func builtinSprintfFunc(c Call) (ret Object, err error) {
 }
 
 func builtinGlobalsFunc(c Call) (Object, error) {
+	if c.VM() == nil {
+		return Undefined, nil
+	}
 	return c.VM().GetGlobals(), nil
 }
 
